@@ -13,12 +13,14 @@ import Tmcg.DriverCgjkr
 import Tmcg.DriverIo2
 import Tmcg.DriverAio2
 import Tmcg.DriverPgpEnc
+import Tmcg.DriverPgpBounds
+import Tmcg.DriverGroupGen
 
 partial def loop (h : IO.FS.Stream) (out : IO.FS.Stream) : IO Unit := do
   let line ← h.getLine
   if line.isEmpty then return ()
   let l := if line.back == (Char.ofNat 10) then (line.dropEnd 1).toString else line
-  out.putStrLn (Tmcg.Driver.processLineWith (Tmcg.Driver.handlers ++ Tmcg.DriverRbc.handlers ++ Tmcg.DriverPgp.handlers ++ Tmcg.DriverOt.handlers ++ Tmcg.DriverRabin.handlers ++ Tmcg.DriverDkg.handlers ++ Tmcg.DriverTsig.handlers ++ Tmcg.DriverPgpMsg.handlers ++ Tmcg.DriverArgs.handlers ++ Tmcg.DriverArith2.handlers ++ Tmcg.DriverJl.handlers ++ Tmcg.DriverCgjkr.handlers ++ Tmcg.DriverIo2.handlers ++ Tmcg.DriverAio2.handlers ++ Tmcg.DriverPgpEnc.handlers) l)
+  out.putStrLn (Tmcg.Driver.processLineWith (Tmcg.Driver.handlers ++ Tmcg.DriverRbc.handlers ++ Tmcg.DriverPgp.handlers ++ Tmcg.DriverOt.handlers ++ Tmcg.DriverRabin.handlers ++ Tmcg.DriverDkg.handlers ++ Tmcg.DriverTsig.handlers ++ Tmcg.DriverPgpMsg.handlers ++ Tmcg.DriverArgs.handlers ++ Tmcg.DriverArith2.handlers ++ Tmcg.DriverJl.handlers ++ Tmcg.DriverCgjkr.handlers ++ Tmcg.DriverIo2.handlers ++ Tmcg.DriverAio2.handlers ++ Tmcg.DriverPgpEnc.handlers ++ Tmcg.DriverPgpBounds.handlers ++ Tmcg.DriverGroupGen.handlers) l)
   loop h out
 
 def main : IO Unit := do
